@@ -1,0 +1,10 @@
+//go:build !verif
+
+package entropy
+
+// Verification hook (see verif_on.go); a compile-time no-op without the "verif" build tag.
+const verifOn = false
+
+func verifNormalize(freqs []int, alphabet []int, totalFreq, scale int) func() {
+	return func() {}
+}
